@@ -257,6 +257,9 @@ def run(ctx):
         n = rng.randint(2, 5)
         do(ctx, 'C18.diag_pauli', ['torch', [gen.rstr(rng, n, nonzero=True), rng.choice([0, 2])], rng.randrange(n), rng.random() < 0.5, rng.choice(['orig', 'compiled', 'copy', 'compiled_copy'])],
            nontrivial=('b18', it))
+    for it in range(int(66 * B)):
+        what = ['pauli_trace', 'tokenize', 'to_qutip', 'len_div_radd', 'identity_zero', 'ghz', 'sample', 'reject', 'random_states', 'rcc', 'expect_pauli', 'batched_expect'][it % 12]
+        do(ctx, 'api_surface', [what, rng.randint(1, 4), rng.randrange(10 ** 6)], nontrivial=('api', what, it))
     if not getattr(ctx, 'is_worker', False):
         do(ctx, 'C16.chi2_product', ['torch', 14400 if ctx.tier == 'quick' else 144000, 15], nontrivial='b16')
     if not getattr(ctx, 'is_worker', False):
@@ -268,3 +271,152 @@ def run(ctx):
         region = [q for q in range(n) if rng.random() < 0.5] or [0]
         if 'C08.ent_dense' in CHECKS:
             do(ctx, 'C08.ent_dense', ['torch', t, [1 if q in region else 0 for q in range(n)]], nontrivial=('b08', it))
+
+
+def c_api_surface(ctx, args):
+    """the rest of the shared public surface, one call at a time on both packages (same inputs), held to the dense / textbook meaning where pyclifford itself carries an open
+    finding (trace), to pyclifford otherwise: traces, token arrays, dense exports, lengths, division, reflected addition, identity / zero polynomials, GHZ states, stabilizer
+    sampling, rejection of anticommuting stabilizers, random states and random-circuit constructors (validity; fresh gates at every run), expectation of a single Pauli,
+    batched expectations"""
+    what, n, seed = args
+    import torch, torchclifford as tc, pyclifford as pcl, numpy as np_
+    import vlib.impl_torch as TT, vlib.impl_np as NPm
+    from vlib import dense as D, states as S
+    rng = __import__('random').Random(seed)
+    a = gen.rpauli(rng, n)
+    l = gen.rplist(rng, n, rng.randint(1, 4))
+    t = gen.rtableau(rng, ctx.model, n)
+
+    def bad(where, got, want):
+        return {'kind': 'oracle', 'where': 'torch:' + where, 'observed': got if len(str(got)) < 500 else str(got)[:500], 'expected': want if len(str(want)) < 500 else str(want)[:500], 'tags': ['torch', 'api', what]}
+
+    def cplx(x):
+        z = complex(x.item() if hasattr(x, 'item') else x)
+        return [round(z.real, 9), round(z.imag, 9)]
+    torch.manual_seed(seed)
+    if what == 'pauli_trace':
+        close = lambda u, v: abs(complex(*u) - complex(*v)) < 1e-5          # (1j)**tensor is evaluated in single precision
+        got = cplx(TT.P(a).trace())
+        tr = np_.trace(D.op(*a))
+        if not close(got, [tr.real, tr.imag]):
+            return bad('Pauli.trace', got, [tr.real, tr.imag])
+        got = [cplx(v) for v in TT.PL(l).trace()]
+        want = [[np_.trace(D.op(*x)).real, np_.trace(D.op(*x)).imag] for x in l]
+        if len(got) != len(want) or not all(close(u, v) for u, v in zip(got, want)):
+            return bad('PauliList.trace', got, want)
+    elif what == 'tokenize':
+        got = [[int(v) for v in row] for row in TT.PL(l).tokenize()]
+        want = [[int(v) for v in row] for row in NPm.PL(l).tokenize()]
+        if got != want:
+            return bad('PauliList.tokenize', got, want)
+        st = [[int(v) for v in row] for row in TT.STATE(t).tokenize()]
+        sw = [[int(v) for v in row] for row in NPm.STATE(t).tokenize()]
+        if st != sw:
+            return bad('StabilizerState.tokenize', st, sw)
+    elif what == 'to_qutip':
+        if n > 3:
+            return None
+        m = np_.array(TT.P(a).to_qutip().full())
+        if not np_.allclose(m, D.op(*a), atol=1e-5):
+            return bad('Pauli.to_qutip', 'dense export', 'i^p sigma[g]')
+        poly = TT.PL(l).as_polynomial()
+        m = np_.array(poly.to_qutip().full())
+        if not np_.allclose(m, sum(D.op(*x) for x in l), atol=1e-5):
+            return bad('PauliPolynomial.to_qutip', 'dense export', 'sum of the terms')
+        rho = np_.array(TT.STATE(t).to_qutip().full())
+        if not np_.allclose(rho, S.rho(t), atol=1e-5):       # (1j)**tensor is evaluated in single precision
+            return bad('StabilizerState.to_qutip', 'dense export', 'rho')
+    elif what == 'len_div_radd':
+        if len(TT.PL(l)) != len(l):
+            return bad('len(PauliList)', len(TT.PL(l)), len(l))
+        poly = TT.PL(l).as_polynomial()
+        q = poly / 2
+        want = sum(D.op(*x) for x in l) / 2
+        got = sum(complex(c) * D.op([int(v) for v in g], int(round(float(p))) % 4) for g, p, c in zip(q.gs, q.ps, q.cs)) if n <= 3 else None
+        if n <= 3 and not np_.allclose(got, want, atol=1e-5):
+            return bad('PauliPolynomial / 2', 'terms', 'half of every coefficient')
+        if n <= 3:
+            s2 = TT.P(a) + poly
+            got = sum(complex(c) * D.op([int(v) for v in g], int(round(float(p))) % 4) for g, p, c in zip(s2.gs, s2.ps, s2.cs))
+            if not np_.allclose(got, D.op(*a) + sum(D.op(*x) for x in l), atol=1e-5):
+                return bad('Pauli + PauliPolynomial', 'terms', 'sum of the operators')
+    elif what == 'identity_zero':
+        i_ = tc.pauli_identity(n)
+        z_ = tc.pauli_zero(n)
+        if [[int(v) for v in g] for g in i_.gs] != [[0] * (2 * n)] or [cplx(c) for c in i_.cs] != [[1.0, 0.0]] or [int(round(float(p))) % 4 for p in i_.ps] != [0]:
+            return bad('pauli_identity', [[int(v) for v in g] for g in i_.gs], 'one identity term with coefficient 1')
+        if any(abs(complex(c)) > 0 for c in z_.cs):
+            return bad('pauli_zero', [cplx(c) for c in z_.cs], 'no non-zero term')
+    elif what == 'ghz':
+        if n < 2:
+            return None
+        got, want = TT.oST(tc.ghz_state(n)), NPm.oST(pcl.ghz_state(n))
+        if got[1] != want[1] or not S.same_state(got, want):
+            return bad('ghz_state', got, want)
+    elif what == 'sample':
+        st = TT.STATE(t)
+        rows = TT.oPL(st.sample(5))
+        if len(rows) != 5:
+            return bad('sample length', len(rows), 5)
+        ex = ctx.model.call('expect', t, rows)
+        if any(v != 1 for v in ex):
+            return bad('sample: drawn operators are not stabilizers of the state (expectation +1)', [rows, ex], 'all +1')
+        if TT.oST(st) != [[[list(x[0]), x[1] % 4] for x in t[0]], t[1]]:
+            return bad('sample modified the state', TT.oST(st), t)
+    elif what == 'reject':
+        if n < 1:
+            return None
+        X0 = [[1, 0] + [0] * (2 * n - 2), 0]
+        Z0 = [[0, 1] + [0] * (2 * n - 2), 0]
+        try:
+            tc.stabilizer_state(TT.PL([X0, Z0]))
+            return bad('stabilizer_state accepted anticommuting stabilizers', 'a state', 'ValueError')
+        except ValueError:
+            pass
+    elif what == 'random_states':
+        for f in (tc.random_pauli_state, tc.random_clifford_state):
+            r = rng.randint(0, n)
+            got = TT.oST(f(n, r))
+            inv = S.tableau_invariant_py(got)
+            if got[1] != r or inv:
+                return bad(f.__name__, got, 'a valid tableau of rank %d (%s)' % (r, inv))
+    elif what == 'rcc':
+        N = 2 * max(1, n // 2)
+        for mk in (lambda: tc.brickwall_rcc(N, 2), lambda: tc.onsite_rcc(N), lambda: tc.global_rcc(N)):
+            c = mk()
+            outs = []
+            for _ in range(4):
+                s = tc.zero_state(N)
+                c.forward(s)
+                got = TT.oST(s)
+                inv = S.tableau_invariant_py(got)
+                if inv or got[1] != 0:
+                    return bad('random-gate circuit produced an invalid state', got, inv)
+                outs.append(str(got))
+            if len(set(outs)) == 1 and N >= 2:
+                return bad('random-gate circuit: the unspecified gates are not resampled (4 runs, one state)', outs[0], 'fresh gates at every run')
+            for s in c.povm(2):
+                got = TT.oST(s)
+                if S.tableau_invariant_py(got):
+                    return bad('povm state invalid', got, 'valid')
+    elif what == 'expect_pauli':
+        o = gen.rpauli(rng, n, herm=True)
+        got = cplx(TT.STATE(t).expect(TT.P(o)))
+        want = cplx(NPm.STATE(t).expect(NPm.P(o)))
+        if abs(complex(*got) - complex(*want)) > 1e-5:
+            return bad('StabilizerState.expect(Pauli)', got, want)
+    elif what == 'batched_expect':
+        from torchclifford import stabilizer as TST
+        if not hasattr(TST, 'vectorizable_expct'):
+            return None
+        r = rng.randint(0, n)
+        ts = [gen.rtableau(rng, ctx.model, n, r=r) for _ in range(3)]
+        obs = [gen.rpauli(rng, n, herm=True) for _ in range(3)] + [ts[0][0][n - 1]]
+        got = [[TT.iv(v) for v in row] for row in TST.vectorizable_expct([TT.STATE(x) for x in ts], TT.PL(obs))]
+        want = [ctx.model.call('expect', x, obs) for x in ts]
+        if got != want:
+            return bad('vectorizable_expct (batched)', got, want)
+    return None
+
+
+CHECKS['api_surface'] = c_api_surface
